@@ -154,11 +154,32 @@ func (w *World) EmitTx(s *Sim, b *Block, kind string, cl uint8, lookalike bool) 
 	w.Txs = append(w.Txs, tx)
 	if lookalike {
 		li := w.Intent("transfer", 0)
-		s.Emit(w.Other, b, tx, 0, FieldsOf(li), li, "lookalike-of-other-contract")
-		// and an unrelated event with another index
-		s.Emit(w.Other, b, tx, 1, []map[string]interface{}{U256("1")}, nil, "other-contract-index-1")
+		emitLook := func() { s.Emit(w.Other, b, tx, 0, FieldsOf(li), li, "lookalike-of-other-contract") }
+		emitOther := func() { s.Emit(w.Other, b, tx, 1, []map[string]interface{}{U256("1")}, nil, "other-contract-index-1") }
+		// the transaction's event list ends with the look-alike or with an unrelated event
+		if w.Rng.Intn(2) == 0 {
+			emitLook()
+			emitOther()
+		} else {
+			emitOther()
+			emitLook()
+		}
 	}
 	return tx, e
+}
+
+// EmitTx2 emits one transaction with TWO core events of different consistency levels (the second
+// one becomes final later than the first).
+func (w *World) EmitTx2(s *Sim, b *Block, cl1, cl2 uint8) string {
+	tx := randHex(w.Rng, 32)
+	in1 := w.Intent("transfer", cl1)
+	in2 := w.Intent("transfer", cl2)
+	e1 := s.Emit(s.Core, b, tx, 0, FieldsOf(in1), in1, "transfer(first of two in one tx)")
+	e2 := s.Emit(s.Core, b, tx, 0, FieldsOf(in2), in2, "transfer(second of two in one tx)")
+	s.TxBlock[tx] = b.Hash
+	w.TxOf[tx] = []*Ev{e1, e2}
+	w.Txs = append(w.Txs, tx)
+	return tx
 }
 
 func (w *World) Tr(s string) {
